@@ -84,7 +84,20 @@ pub struct Config {
     pub te: Option<String>,
     pub piece: usize,
     pub extra_headers: usize,
+    /// index into REQ_EXTRA: further headers of the request being answered
+    pub req_extra: usize,
 }
+
+/// Headers the answered request may carry besides Host and TE: none of them is an input to
+/// the framing of the response.
+pub const REQ_EXTRA: [&[(&str, &str)]; 6] = [
+    &[],
+    &[("Connection", "close")],
+    &[("Connection", "keep-alive"), ("Accept-Encoding", "gzip, identity;q=0.5")],
+    &[("Content-Length", "5"), ("Expect", "100-continue")],
+    &[("Transfer-Encoding", "chunked"), ("Trailer", "X-T")],
+    &[("Range", "bytes=0-1"), ("If-None-Match", "\"x\""), ("Connection", "Upgrade"), ("Upgrade", "websocket")],
+];
 
 impl Config {
     fn to_json(&self) -> Value {
@@ -92,7 +105,8 @@ impl Config {
                "threshold": self.threshold.map(|t| t.to_string()),
                "version": format!("{}.{}", self.version.0, self.version.1), "head": self.head,
                "te": self.te, "piece": if self.piece == usize::MAX { "irregular".to_string() } else if self.piece == INTERRUPTING { "irregular+interrupted".to_string() } else { self.piece.to_string() },
-               "extra_headers": self.extra_headers})
+               "extra_headers": self.extra_headers,
+               "request_headers": REQ_EXTRA[self.req_extra].iter().map(|(n, v)| format!("{}: {}", n, v)).collect::<Vec<_>>(), "req_extra": self.req_extra})
     }
     fn from_json(c: &Value) -> Config {
         let ver = c["version"].as_str().unwrap_or("1.1").as_bytes().to_vec();
@@ -111,6 +125,7 @@ impl Config {
                 None => 0,
             },
             extra_headers: c["extra_headers"].as_u64().unwrap_or(0) as usize,
+            req_extra: c["req_extra"].as_u64().unwrap_or(0) as usize,
         }
     }
 }
@@ -143,6 +158,9 @@ pub fn judge(cfg: &Config) -> Result<String, (String, String)> {
     let mut rq = vec![Header::from_bytes(&b"Host"[..], &b"h"[..]).unwrap()];
     if let Some(te) = &cfg.te {
         rq.push(Header::from_bytes(&b"TE"[..], te.as_bytes()).unwrap());
+    }
+    for (n, v) in REQ_EXTRA[cfg.req_extra] {
+        rq.push(Header::from_bytes(n.as_bytes(), v.as_bytes()).unwrap());
     }
     let mut out = Vec::new();
     let r = std::panic::catch_unwind(std::panic::AssertUnwindSafe(|| {
@@ -216,6 +234,7 @@ fn space(tier: Tier) -> Space {
         TES.len(),
         pieces(tier).len(),
         if tier == Tier::Quick { 2 } else { 3 },
+        REQ_EXTRA.len(),
     ])
 }
 
@@ -241,6 +260,58 @@ fn decode(idx: u64, tier: Tier) -> Config {
         te: TES[d[6]].map(|s| s.to_string()),
         piece: pieces(tier)[d[7]],
         extra_headers: d[8],
+        req_extra: d[9],
+    }
+}
+
+/// A writer that accepts `ok` bytes and then fails for good.
+struct FailWriter {
+    ok: usize,
+}
+
+impl std::io::Write for FailWriter {
+    fn write(&mut self, b: &[u8]) -> std::io::Result<usize> {
+        if self.ok == 0 {
+            return Err(std::io::Error::new(std::io::ErrorKind::BrokenPipe, "peer is gone"));
+        }
+        let n = b.len().min(self.ok);
+        self.ok -= n;
+        Ok(n)
+    }
+    fn flush(&mut self) -> std::io::Result<()> {
+        Ok(())
+    }
+}
+
+const FAIL_POINTS: [usize; 5] = [0, 17, 600, 1500, 1700];
+
+/// Prints a DIFFERENT response (404, 24 headers: a head of ~1.6 KiB, 100 body bytes) on this
+/// thread into a writer that breaks after `ok` bytes, and ignores the outcome: a response
+/// that could not be sent must leave nothing behind for the next one printed by the thread.
+fn print_into_broken_writer(ok: usize) {
+    let hs: Vec<Header> = (0..24)
+        .map(|i| Header::from_bytes(&b"Set-Cookie"[..], format!("session{}=0123456789abcdefghijklmnopqrstuvwxyz0123456789; Path=/", i).as_bytes()).unwrap())
+        .collect();
+    let resp = Response::new(StatusCode(404), hs, std::io::Cursor::new(vec![b'n'; 100]), Some(100), None);
+    let rq = vec![Header::from_bytes(&b"Host"[..], &b"h"[..]).unwrap()];
+    let mut w = FailWriter { ok };
+    let _ = std::panic::catch_unwind(std::panic::AssertUnwindSafe(|| {
+        let _ = resp.raw_print(&mut w, HTTPVersion(1, 1), &rq, false, None);
+    }));
+}
+
+fn run_cfg_after_failed_write(cfg: &Config, acc: &mut Acc) {
+    for ok in FAIL_POINTS {
+        print_into_broken_writer(ok);
+        acc.evals += 1;
+        if let Err((key, desc)) = judge(cfg) {
+            acc.violation(
+                &format!("after-failed-write:{}", key),
+                format!("{} for {} printed right after another response of the same thread had failed after {} bytes", desc, cfg.to_json(), ok),
+                json!({"config": cfg.to_json(), "after_failed_write": ok}),
+            );
+            return;
+        }
     }
 }
 
@@ -305,7 +376,7 @@ fn l1_run(idx: u64, acc: &mut Acc, replaying: bool) {
     // a second request shows that the client knew where the first response ended
     bytes.extend_from_slice(b"GET /after HTTP/1.1\r\nHost: t\r\n\r\n");
     let plans = vec![
-        ReqPlan { read: ReadPlan::None, finish: Finish::Respond(RespSpec { status, body_len: len, declared, threshold: None }) },
+        ReqPlan { read: ReadPlan::None, finish: Finish::Respond(RespSpec { status, body_len: len, declared, threshold: None, headers: 0 }) },
         ReqPlan::simple(),
     ];
     let sc = Scenario::one_conn(vec![bytes], AppProgram::with_plans(plans));
@@ -333,6 +404,9 @@ fn l1_run(idx: u64, acc: &mut Acc, replaying: bool) {
     }
 }
 
+/// clauses of the shared feature product (props/product.rs) that belong to this property
+const PRODUCT_CLAUSES: &[&str] = &["response-malformed", "response-truncated", "response-body", "content-length"];
+
 impl Check for C04 {
     fn id(&self) -> &'static str {
         "C04"
@@ -341,7 +415,7 @@ impl Check for C04 {
         "exploration"
     }
     fn n_items(&self, tier: Tier) -> u64 {
-        space(tier).size() + l1_space().size()
+        space(tier).size() + l1_space().size() + crate::props::product::n_items(tier)
     }
     fn chunk(&self, _tier: Tier) -> u64 {
         2_000
@@ -349,9 +423,15 @@ impl Check for C04 {
     fn run_item(&self, idx: u64, tier: Tier, acc: &mut Acc) {
         let n0 = space(tier).size();
         if idx < n0 {
-            run_cfg(&decode(idx, tier), acc);
-        } else {
+            let cfg = decode(idx, tier);
+            run_cfg(&cfg, acc);
+            if cfg.piece == 0 && cfg.extra_headers == 0 && cfg.req_extra == 0 {
+                run_cfg_after_failed_write(&cfg, acc);
+            }
+        } else if idx < n0 + l1_space().size() {
             l1_run(idx - n0, acc, false);
+        } else {
+            crate::props::product::run_item(idx - n0 - l1_space().size(), tier, acc, PRODUCT_CLAUSES);
         }
     }
     fn crash_is_violation(&self) -> bool {
@@ -364,15 +444,18 @@ impl Check for C04 {
         if idx < n0 {
             let cfg = decode(idx, tier);
             ("raw_print".to_string(), json!({"config": cfg.to_json()}))
-        } else {
+        } else if idx < n0 + l1_space().size() {
             ("connection".to_string(), json!({"l1_index": idx - n0}))
+        } else {
+            ("product".to_string(), json!({"product_index": idx - n0 - l1_space().size()}))
         }
     }
     fn rule(&self, tier: Tier) -> String {
-        format!(
-            "full product status{:?} x body length{:?} x declared/undeclared x threshold{{0,1,len-1,len,len+1,default,usize::MAX}} x version{{1.0,1.1}} x HEAD/GET x TE{:?} x reader piece size{:?} (0=whole, max=irregular cycle, max-1=irregular cycle with a transient Interrupted error before every piece) x extra headers 0..{} = {} responses printed by Response::raw_print; each output must be consumed exactly by the independent RFC 7230 client parser, which must recover the status and exactly the body; plus {} responses sent through a real connection (status x length {{0,5,8193,40000}} x declared/undeclared x GET/HEAD x HTTP/1.0 keep-alive/1.1 x TE absent/chunked/identity, followed by a second request whose answer must be found right after); non-trivial = body length > 0",
+        let own = format!(
+            "full product status{:?} x body length{:?} x declared/undeclared x threshold{{0,1,len-1,len,len+1,default,usize::MAX}} x version{{1.0,1.1}} x HEAD/GET x TE{:?} x reader piece size{:?} (0=whole, max=irregular cycle, max-1=irregular cycle with a transient Interrupted error before every piece) x extra headers 0..{} x 6 sets of further request headers (Connection: close / keep-alive, Content-Length + Expect, Transfer-Encoding, Range + conditional + Upgrade: none is an input to the framing) = {} responses printed by Response::raw_print (those with whole-piece readers and no extra headers also right after another response printed by the same thread into a writer that breaks after 0 / 17 / 600 / 1500 / 1700 bytes: nothing of a response that could not be sent may reach the next one); each output must be consumed exactly by the independent RFC 7230 client parser, which must recover the status and exactly the body; plus {} responses sent through a real connection (status x length {{0,5,8193,40000}} x declared/undeclared x GET/HEAD x HTTP/1.0 keep-alive/1.1 x TE absent/chunked/identity, followed by a second request whose answer must be found right after); non-trivial = body length > 0",
             STATUSES, lengths(tier), TES, pieces(tier), if tier == Tier::Quick { 1 } else { 2 }, space(tier).size(), l1_space().size()
-        )
+        );
+        format!("{} || {} {:?}", own, crate::props::product::RULE, PRODUCT_CLAUSES)
     }
     fn assumptions(&self) -> Vec<String> {
         vec![
@@ -381,6 +464,10 @@ impl Check for C04 {
         ]
     }
     fn replay(&self, replay: &Value, acc: &mut Acc) {
+        if crate::props::product::is_product_replay(replay) {
+            crate::props::product::replay(replay, acc, PRODUCT_CLAUSES);
+            return;
+        }
         if replay["kind"].as_str() == Some("crash") {
             // a crash is replayed in a subprocess: this process would die with it
             let item = replay["item"].as_u64().unwrap_or(0);
@@ -406,6 +493,10 @@ impl Check for C04 {
         }
         let cfg = Config::from_json(&replay["config"]);
         acc.notes.insert(format!("replaying {}", cfg.to_json()));
+        if replay.get("after_failed_write").is_some() {
+            run_cfg_after_failed_write(&cfg, acc);
+            return;
+        }
         run_cfg(&cfg, acc);
     }
 }
